@@ -101,6 +101,14 @@ def parse_result_file(path):
             res["failed"].append(ent)
         if ".cover." in cm.group(2):
             res["covers"].append(ent)
+    # a verifier that gave up is not a verdict
+    if not res["failed"] and res["status"] != "SUCCESSFUL":
+        if "CBMC timed out" in txt:
+            res["status"] = "TIMEOUT"
+        elif "run out of memory" in txt:
+            res["status"] = "OUT_OF_MEMORY"
+        elif "CBMC failed" in txt:
+            res["status"] = "VERIFIER_FAILED"
     return res, txt
 
 
